@@ -51,6 +51,10 @@ def is_nameplate_key(sc, t, before):
 
 def run(ctx):
     model = ctx.model
+    shared.r_remember(ctx, "R07.remember", "claim", "release",
+                      "the side's claim row exists, but its bare `release` is refused (nothing "
+                      "remembered): the claim is never ended and the nameplate outlives every "
+                      "release")
     from .. import roles as _rm3
     shared.r_nocfg(ctx, "R07.nocfg", _rm3.get(model).release_op,
                    "a released nameplate stays listed (or a claim stays) under the other setting")
